@@ -517,6 +517,19 @@ inline void drive_golden(const char * path)
         Z::fill(f);
         std::string w = storage_differs<Z>(f, g);
         if (!w.empty()) vh::viol("golden:values", ts + ": " + w);
+        {
+            // ... and the loaded field answers lookups through the whole stack like the reference interpreter does
+            // (the storage comparison above is flat: it cannot see a reader that maps coordinates to other cells
+            // than the writer did, e.g. a build-flag dependent index path)
+            // (goldens whose view state exceeds the library's 256-byte limit can be dumped and loaded but not viewed)
+            if constexpr (sizeof(typename Z::backend_t::non_owning_data_t) <= 256) {
+                model::P m = Z::make_model();
+                vh::Rng rng(vh::st().seed * 7368787 + vh::fnv(Z::name()));
+                unsigned hits = zoo::compare_with_model<Z>(g, *m, rng, 300, "golden:lookup", "loaded from the pinned revision's file");
+                vh::stat("golden_in_domain_lookups", hits);
+                vh::stat("goldens_looked_up");
+            }
+        }
         std::string again = dump<Z>(g);
         if (again != bytes) {
             size_t p = 0;
